@@ -20,9 +20,9 @@ PLAN = dict(
                     "(linearized); back ends: a panic is accepted only if its message is one of the documented capacity limits AND "
                     "the program is outside within_capacity_<backend> (so theorem codegen_total is confronted with the real code "
                     "generators). First failure wins: VIOL class=ill-typed-stage:<stage> | internal-failure:<stage> | "
-                    "capture-under-binder (known finding: only when the syntactic detector fires, the first ill-typed stage is core "
+                    "capture-under-binder (FIXED in /repo by <commitcap>; a recurrence is a plain violation: only when the syntactic detector fires, the first ill-typed stage is core "
                     "and the failure is an occurrence resolved to a binder of another chirality/type) | call-to-main-typing "
-                    "(known findings, each with its closed-form detector) | main-non-integer-result (FIXED in /repo by 5b8c76f: the checker rejects "
+                    "(known finding, with its closed-form detector) | main-non-integer-result (FIXED in /repo by 5b8c76f: the checker rejects "
                     "a main whose return type is not i64; a recurrence is a plain violation). Theorems (no axioms): "
                     "codegen_total for the generic code generator and its x86-64 / AArch64 / RISC-V instances, linearization "
                     "preserves typing, wt_ax -> prog_ok, totality of focusing and shrinking on typed programs, the refutation of "
